@@ -146,7 +146,8 @@ func unflatEdit(v flat) manifest.Edit {
 }
 
 type mfDesc struct {
-	Kind     string   `json:"kind"` // reload | crash | resume
+	Faults   []int    `json:"faults,omitempty"` // kind "fault": per batch 0 = none, 1..6 see faultNames
+	Kind     string   `json:"kind"` // reload | crash | resume | fault
 	Thr      int64    `json:"thr"`
 	Batches  [][]flat `json:"batches"`
 	Batches2 [][]flat `json:"batches2,omitempty"`
@@ -597,9 +598,92 @@ func genResume(c *corr.Ctx) mfDesc {
 	return mfDesc{Kind: "resume", Thr: thr, Batches: b1, Batches2: b2}
 }
 
+var faultNames = []string{"none", "append_write", "create_new_manifest", "snapshot_write", "snapshot_sync", "current_tmp_write", "current_rename"}
+
+// faultCase: LogEdits calls on a vfs.FaultFS; before a call one fault may be armed (one shot):
+// the write of the batch, or one of the I/O operations of the rewrite that the call triggers.
+// After the history: Current(), Close, Verify + Open, Current().
+func faultCase(c *corr.Ctx, root string, d mfDesc) (corr.Case, error) {
+	dir, err := os.MkdirTemp(root, "f")
+	if err != nil {
+		return corr.Case{}, err
+	}
+	defer os.RemoveAll(dir)
+	armed, fired := 0, false
+	live := ""
+	hook := func(op vfs.Op, path string) error {
+		if armed == 0 || fired {
+			return nil
+		}
+		base := filepath.Base(path)
+		isMan := len(base) > 9 && base[:9] == "MANIFEST-"
+		hit := false
+		switch armed {
+		case 1:
+			hit = op == vfs.OpFileWrite && base == live
+		case 2:
+			hit = op == vfs.OpOpenFile && isMan && base != live
+		case 3:
+			hit = op == vfs.OpFileWrite && isMan && base != live
+		case 4:
+			hit = op == vfs.OpFileSync && isMan && base != live
+		case 5:
+			hit = op == vfs.OpWriteFile
+		case 6:
+			hit = op == vfs.OpRename
+		}
+		if hit {
+			fired = true
+			return fmt.Errorf("injected %s failure", faultNames[armed])
+		}
+		return nil
+	}
+	fs := vfs.NewFaultFS(nil, hook)
+	m, err := manifest.Open(dir, fs)
+	if err != nil {
+		return corr.Case{}, err
+	}
+	m.SetRewriteThreshold(d.Thr)
+	var steps []string
+	for k, b := range d.Batches {
+		cur, _ := os.ReadFile(filepath.Join(dir, "CURRENT"))
+		live = string(cur)
+		armed, fired = d.Faults[k], false
+		var lerr error
+		func() {
+			defer func() {
+				if r := recover(); r != nil {
+					lerr = fmt.Errorf("panic: %v", r)
+				}
+			}()
+			lerr = m.LogEdits(toEdits(b)...)
+		}()
+		f := armed
+		armed = 0
+		if lerr != nil && !fired {
+			return corr.Case{}, fmt.Errorf("LogEdits failed without an injected fault: %w", lerr)
+		}
+		e := 0
+		if lerr != nil {
+			e = 1
+			c.Count("fault_fired_" + faultNames[f])
+		} else if f != 0 {
+			c.Count("fault_not_reached")
+		}
+		steps = append(steps, fmt.Sprintf("(%s, %d, %d)", flatsTerm(b), f, e))
+	}
+	mem := canon(m.Current())
+	if err := m.Close(); err != nil {
+		return corr.Case{}, err
+	}
+	disk, errc := reopen(dir)
+	term := fmt.Sprintf("Cf %d %s %s %s %d", d.Thr, corr.List(steps), flatsTerm(mem), flatsTerm(disk), errc)
+	return corr.Case{Coq: term, Nontrivial: true, Desc: d}, nil
+}
+
 func runManifest(c *corr.Ctx) error {
 	c.Meta("run_module", "RunManifest")
-	c.Meta("rule", "real manifest.Manager. reload cases: random edit sequences (3..40 edits, LogEdits batches of 1-3) over all 8 edit types with colliding ids (file add/delete incl. deletes of missing files and out-of-order ids, WAL checkpoint, value-log head/delete/update incl. invalid updates with an offset, raft pointers, region update/delete, nil sub-structs), boundary field values (0, 2^32-1, 2^63-1, 2^64-1), empty keys; rewrite thresholds {disabled, 64, 300 bytes}; Current() before Close vs the model and vs Current() after Verify + Open. crash cases: the same run on a recording vfs.FS that snapshots the directory after every OpenFileHandle / Write / WriteFile / Rename / Remove / Truncate during LogEdits and at torn prefixes of every write; every snapshot is reopened with the real Verify + Open; each recovered state must be one of the model's crash states for that LogEdits call and the state after a prefix of the edits containing all acknowledged ones. resume cases: a history whose last LogEdits rewrites the manifest; the image with the new manifest written but CURRENT not yet renamed (orphan manifest file) is reopened with the real Verify + Open, a batch of deletes (smaller snapshot, next rewrite) and 0-3 small edits are logged, Current() compared with the model (open_mgr + log_all) and with Current() after another Verify + Open")
+	c.Meta("rule", "real manifest.Manager. reload cases: random edit sequences (3..40 edits, LogEdits batches of 1-3) over all 8 edit types with colliding ids (file add/delete incl. deletes of missing files and out-of-order ids, WAL checkpoint, value-log head/delete/update incl. invalid updates with an offset, raft pointers, region update/delete, nil sub-structs), boundary field values (0, 2^32-1, 2^63-1, 2^64-1), empty keys; rewrite thresholds {disabled, 64, 300 bytes}; Current() before Close vs the model and vs Current() after Verify + Open. crash cases: the same run on a recording vfs.FS that snapshots the directory after every OpenFileHandle / Write / WriteFile / Rename / Remove / Truncate during LogEdits and at torn prefixes of every write; every snapshot is reopened with the real Verify + Open; each recovered state must be one of the model's crash states for that LogEdits call and the state after a prefix of the edits containing all acknowledged ones. resume cases: a history whose last LogEdits rewrites the manifest; the image with the new manifest written but CURRENT not yet renamed (orphan manifest file) is reopened with the real Verify + Open, a batch of deletes (smaller snapshot, next rewrite) and 0-3 small edits are logged, Current() compared with the model (open_mgr + log_all) and with Current() after another Verify + Open. fault cases: LogEdits calls on a vfs.FaultFS with a one-shot injected I/O error (write of the batch; create / write / sync of the new manifest; WriteFile of CURRENT.tmp; rename to CURRENT) armed for about a third of the calls, thresholds 64/150 so that most calls rewrite; the history goes on with successful calls; compared: which calls returned an error, Current() vs the model (log_all_f) and vs Current() after Verify + Open")
 	root, err := os.MkdirTemp(os.Getenv("VERIF_TMP"), "mf")
 	if err != nil {
 		return err
@@ -608,7 +692,9 @@ func runManifest(c *corr.Ctx) error {
 	run := func(d mfDesc) error {
 		var cs corr.Case
 		var err error
-		if d.Kind == "resume" {
+		if d.Kind == "fault" {
+			cs, err = faultCase(c, root, d)
+		} else if d.Kind == "resume" {
 			var ok bool
 			cs, ok, err = resumeCase(c, root, d)
 			if err == nil && !ok {
@@ -656,6 +742,28 @@ func runManifest(c *corr.Ctx) error {
 			if err := run(d); err != nil {
 				return err
 			}
+		}
+	}
+	for i, n := 0, c.Scale(60, 2000); i < n; i++ {
+		bs := batchesOf(c, genEdits(c, 4+c.Rng.Intn(14)))
+		fl := make([]int, len(bs))
+		for k := range fl {
+			if c.Rng.Intn(3) == 0 {
+				fl[k] = 1 + c.Rng.Intn(6)
+			}
+		}
+		d := mfDesc{Kind: "fault", Thr: corr.Pick(c.Rng, []int64{64, 64, 150}), Batches: bs, Faults: fl}
+		if i%2 == 1 && len(bs) >= 3 {
+			// one fault late in the history, a larger threshold: the calls after the failed
+			// rewrite do not reach another rewrite before the manager is closed
+			for k := range fl {
+				fl[k] = 0
+			}
+			fl[len(bs)-2-c.Rng.Intn(2)] = 2 + c.Rng.Intn(5)
+			d.Thr = corr.Pick(c.Rng, []int64{150, 300, 500})
+		}
+		if err := run(d); err != nil {
+			return err
 		}
 	}
 	for i, n := 0, c.Scale(12, 300); i < n; i++ {
